@@ -2,11 +2,6 @@
 
 package osm
 
-// Marker functions understood by govc.
-func vAssert(b bool) {}
-func vAssume(b bool) {}
-func vCover(b bool)  {}
-
 // Round trip kind/ref/version for node element ids (full domain).
 
 //@ func lemmaC10NodeRoundTrip
@@ -31,4 +26,205 @@ func lemmaC10NodeRoundTrip(r int64, v int) {
 	vAssert(e.FeatureID() == f)
 	vAssert(f.ElementID(v) == e)
 	vAssert(e.ObjectID() == o)
+}
+
+//@ func lemmaC10WayRoundTrip
+//@   mode bv
+//@   props C10
+//@   nopanic
+//@   requires 0 <= r && r < (1 << 40) && 0 <= v && v < (1 << 16)
+func lemmaC10WayRoundTrip(r int64, v int) {
+	e := WayID(r).ElementID(v)
+	vAssert(e.Type() == TypeWay)
+	vAssert(e.Ref() == r)
+	vAssert(e.Version() == v)
+	vAssert(e.WayID() == WayID(r))
+	o := WayID(r).ObjectID(v)
+	vAssert(o.Type() == TypeWay)
+	vAssert(o.Ref() == r)
+	vAssert(o.Version() == v)
+	f := WayID(r).FeatureID()
+	vAssert(f.Type() == TypeWay)
+	vAssert(f.Ref() == r)
+	vAssert(f.WayID() == WayID(r))
+	vAssert(e.FeatureID() == f)
+	vAssert(f.ElementID(v) == e)
+	vAssert(e.ObjectID() == o)
+}
+
+//@ func lemmaC10RelationRoundTrip
+//@   mode bv
+//@   props C10
+//@   nopanic
+//@   requires 0 <= r && r < (1 << 40) && 0 <= v && v < (1 << 16)
+func lemmaC10RelationRoundTrip(r int64, v int) {
+	e := RelationID(r).ElementID(v)
+	vAssert(e.Type() == TypeRelation)
+	vAssert(e.Ref() == r)
+	vAssert(e.Version() == v)
+	vAssert(e.RelationID() == RelationID(r))
+	o := RelationID(r).ObjectID(v)
+	vAssert(o.Type() == TypeRelation)
+	vAssert(o.Ref() == r)
+	vAssert(o.Version() == v)
+	f := RelationID(r).FeatureID()
+	vAssert(f.Type() == TypeRelation)
+	vAssert(f.Ref() == r)
+	vAssert(f.RelationID() == RelationID(r))
+	vAssert(e.FeatureID() == f)
+	vAssert(f.ElementID(v) == e)
+	vAssert(e.ObjectID() == o)
+}
+
+//@ func lemmaC10OtherKindsRoundTrip
+//@   mode bv
+//@   props C10
+//@   nopanic
+//@   requires 0 <= r && r < (1 << 40)
+func lemmaC10OtherKindsRoundTrip(r int64) {
+	c := ChangesetID(r).ObjectID()
+	vAssert(c.Type() == TypeChangeset)
+	vAssert(c.Ref() == r)
+	vAssert(c.Version() == 0)
+	n := NoteID(r).ObjectID()
+	vAssert(n.Type() == TypeNote)
+	vAssert(n.Ref() == r)
+	vAssert(n.Version() == 0)
+	u := UserID(r).ObjectID()
+	vAssert(u.Type() == TypeUser)
+	vAssert(u.Ref() == r)
+	vAssert(u.Version() == 0)
+	var b *Bounds
+	bo := b.ObjectID()
+	vAssert(bo.Type() == TypeBounds)
+}
+
+// Injectivity over all seven kinds, via the one constructor that covers them.
+
+//@ func lemmaC10Injective
+//@   mode bv
+//@   props C10
+//@   nopanic
+//@   requires 0 <= r1 && r1 < (1 << 40) && 0 <= v1 && v1 < (1 << 16)
+//@   requires 0 <= r2 && r2 < (1 << 40) && 0 <= v2 && v2 < (1 << 16)
+func lemmaC10Injective(t1, t2 Type, r1, r2 int64, v1, v2 int) {
+	o1, e1 := t1.objectID(r1, v1)
+	o2, e2 := t2.objectID(r2, v2)
+	if e1 != nil || e2 != nil {
+		return
+	}
+	// decoding recovers the kind for every kind
+	vAssert(o1.Type() == t1)
+	vAssert(o2.Type() == t2)
+	if o1 == o2 {
+		vAssert(t1 == t2)
+		if t1 != TypeBounds {
+			vAssert(r1 == r2)
+		}
+		if t1 == TypeNode || t1 == TypeWay || t1 == TypeRelation {
+			vAssert(v1 == v2)
+		}
+	}
+}
+
+// Integer order of ids equals (kind, ref, version) lexicographic order with
+// bounds < node < way < relation < changeset < note < user.
+
+//@ func lemmaC10OrderIso
+//@   mode bv
+//@   props C10
+//@   nopanic
+//@   requires 0 <= r1 && r1 < (1 << 40) && 0 <= v1 && v1 < (1 << 16)
+//@   requires 0 <= r2 && r2 < (1 << 40) && 0 <= v2 && v2 < (1 << 16)
+func lemmaC10OrderIso(t1, t2 Type, r1, r2 int64, v1, v2 int) {
+	o1, e1 := t1.objectID(r1, v1)
+	o2, e2 := t2.objectID(r2, v2)
+	if e1 != nil || e2 != nil {
+		return
+	}
+	k1, k2 := 0, 0
+	if t1 == TypeNode {
+		k1 = 1
+	} else if t1 == TypeWay {
+		k1 = 2
+	} else if t1 == TypeRelation {
+		k1 = 3
+	} else if t1 == TypeChangeset {
+		k1 = 4
+	} else if t1 == TypeNote {
+		k1 = 5
+	} else if t1 == TypeUser {
+		k1 = 6
+	}
+	if t2 == TypeNode {
+		k2 = 1
+	} else if t2 == TypeWay {
+		k2 = 2
+	} else if t2 == TypeRelation {
+		k2 = 3
+	} else if t2 == TypeChangeset {
+		k2 = 4
+	} else if t2 == TypeNote {
+		k2 = 5
+	} else if t2 == TypeUser {
+		k2 = 6
+	}
+	if k1 == 0 || k2 == 0 {
+		// bounds carry neither ref nor version
+		if k1 == 0 && k2 != 0 {
+			vAssert(o1 < o2)
+		}
+		return
+	}
+	// kinds without versions ignore v
+	if k1 > 3 {
+		v1 = 0
+	}
+	if k2 > 3 {
+		v2 = 0
+	}
+	lex := k1 < k2 || (k1 == k2 && (r1 < r2 || (r1 == r2 && v1 < v2)))
+	vAssert((o1 < o2) == lex)
+}
+
+// Element ids: node < way < relation, then ref, then version; and the
+// feature id order is the same order with the version dropped.
+
+//@ func lemmaC10ElementOrder
+//@   mode bv
+//@   props C10
+//@   nopanic
+//@   requires 0 <= r1 && r1 < (1 << 40) && 0 <= v1 && v1 < (1 << 16)
+//@   requires 0 <= r2 && r2 < (1 << 40) && 0 <= v2 && v2 < (1 << 16)
+func lemmaC10ElementOrder(r1, r2 int64, v1, v2 int) {
+	n1, n2 := NodeID(r1).ElementID(v1), NodeID(r2).ElementID(v2)
+	w1, w2 := WayID(r1).ElementID(v1), WayID(r2).ElementID(v2)
+	l1, l2 := RelationID(r1).ElementID(v1), RelationID(r2).ElementID(v2)
+	lex := r1 < r2 || (r1 == r2 && v1 < v2)
+	vAssert((n1 < n2) == lex)
+	vAssert((w1 < w2) == lex)
+	vAssert((l1 < l2) == lex)
+	vAssert(n1 < w2 && w1 < l2 && n1 < l2)
+	vAssert((n1.FeatureID() < n2.FeatureID()) == (r1 < r2))
+	vAssert(n1.FeatureID() < w2.FeatureID() && w1.FeatureID() < l2.FeatureID())
+}
+
+// The sort comparison functions are integer < on the packed ids.
+
+//@ func lemmaC10LessElementIDs
+//@   mode bv
+//@   props C10
+//@   nopanic
+//@   requires 0 <= i && i < len(ids) && 0 <= j && j < len(ids)
+func lemmaC10LessElementIDs(ids ElementIDs, i, j int) {
+	vAssert(elementIDsSort(ids).Less(i, j) == (ids[i] < ids[j]))
+}
+
+//@ func lemmaC10LessFeatureIDs
+//@   mode bv
+//@   props C10
+//@   nopanic
+//@   requires 0 <= i && i < len(ids) && 0 <= j && j < len(ids)
+func lemmaC10LessFeatureIDs(ids FeatureIDs, i, j int) {
+	vAssert(featureIDsSort(ids).Less(i, j) == (ids[i] < ids[j]))
 }
